@@ -19,7 +19,7 @@ ROUTES = ["ts", "tp", "es", "ep", "ed", "edx", "vt", "tt"]
 DOC_ROUTES = ["ts", "tp", "es", "ep", "ed", "edx"]
 TYPES = ["Prims", "Nested", "MapS", "MapK", "Seqs", "Tuples", "Opts", "Enums", "EnumSeq", "EnumMap", "EnumNest", "Mixed", "OptTbl",
          "Empties", "Dts", "Floats", "Strs", "RootE", "RootMap", "RootMapE", "Deep", "IntEdge", "Wide", "Units", "SeqNone", "BadKeys",
-         "CharKeys", "NtKeys", "RootVec", "RootInt", "RootStr", "RootTuple", "RootOpt", "RootNt", "RootUnit", "RootDt", "RootE2"]
+         "CharKeys", "NtKeys", "RootVec", "RootInt", "RootStr", "RootTuple", "RootOpt", "RootNt", "RootUnit", "RootDt", "RootE2", "TomlValue", "Holder"]
 INT_RANGE = {"i8": (-2 ** 7, 2 ** 7 - 1), "i16": (-2 ** 15, 2 ** 15 - 1), "i32": (-2 ** 31, 2 ** 31 - 1), "i64": (-2 ** 63, 2 ** 63 - 1),
              "u8": (0, 2 ** 8 - 1), "u16": (0, 2 ** 16 - 1), "u32": (0, 2 ** 32 - 1), "u64": (0, 2 ** 64 - 1),
              "i128": (-2 ** 127, 2 ** 127 - 1), "u128": (0, 2 ** 128 - 1)}
